@@ -12,7 +12,6 @@ import (
 	"os"
 	"reflect"
 	"runtime/debug"
-	"runtime/pprof"
 	"time"
 
 	"verif/engine"
@@ -115,11 +114,6 @@ func expect(tier string) []string {
 func main() {
 	// a decoder recursing forever should end the worker in milliseconds, not after growing a 1 GB stack
 	debug.SetMaxStack(64 << 20)
-	if f := os.Getenv("C08_PROFILE"); f != "" {
-		fh, _ := os.Create(f)
-		_ = pprof.StartCPUProfile(fh)
-		go func() { time.Sleep(40 * time.Second); pprof.StopCPUProfile(); fh.Close(); os.Exit(0) }()
-	}
 	if f := os.Getenv("C08_TIMING"); f != "" && os.Getenv("C08_CHILD") != "1" {
 		timingFile, _ = os.OpenFile(f, os.O_APPEND|os.O_CREATE|os.O_WRONLY, 0o644)
 	}
@@ -131,10 +125,13 @@ func main() {
 		ID:    "C08",
 		Level: "fault_enumeration",
 		Rule: "One scenario per (serializable type, catalogue value, oracle family); the method set (BinarySize/WriteTo/ReadFrom/MarshalBinary/UnmarshalBinary/JSON) is discovered per type. " +
-			"Leaves enumerate: every writing entry point (9 writers + BinarySize + JSON); every (decoder x receiver history: fresh, constructed as / having decoded each catalogue value of the type); " +
-			"streams A|B|A over every partner object B x 3 shared buffer.Readers; every (reader buffer size direct/16/17/100/4096 x chunking 1/2/7/halves/EOF-with-data/one (0,nil) read at each position); " +
-			"every truncation offset (all offsets up to 4 KiB, else first 256 + every 64th + last 8; thorough: all); every located header field (each of the first 64 bytes, every small LE u32/u64, every byte of JSON texts) x " +
-			"{0,1,2,0xff,orig+-1,2^63,2^64-1} and the allocation ladder 2^20,2^24,2^27,2^31,2^32-1; every writer failure offset x 3 failing writers. " +
+			"Leaves (choice points) and what each batches: entrypoints = one leaf per writing entry point (MarshalBinary, 8 writers, BinarySize, JSON); " +
+			"receiver = one leaf per history kind (fresh / constructed as / having decoded [/ two decodes, thorough]) looping over every decoder and every catalogue value of the type as previous content; " +
+			"stream = one leaf per (partner object B, shared buffer.Reader kind) for the stream A|B|A; " +
+			"fragmentation = leaf 0: all reader buffer sizes direct/16/17/100/4096 with the whole data available, then one leaf per (buffer size, chunking class: short reads 1/2/7/9/1000/halves, io.EOF together with data, one (0,nil) read at each position); " +
+			"truncation = one leaf per decoder over every cut offset (all offsets up to 4 KiB, else first 256 + every 64th + last 8; thorough: all); " +
+			"corruption = one leaf per decoder over every located header field (each of the first 64 bytes, every small LE u32/u64, every byte of JSON texts) x {0,1,2,0xff,orig+-1,2^63,2^64-1,2^20,2^31,2^32-1} (JSON: 8 bit flips + 3 bytes), allocation-driving lengths probed at 2^19 and confirmed once per decoder above 64 MiB; " +
+			"writer-failure = one leaf per failing writer kind over every failure offset. Fault-point executions run in a helper process so that fatal errors are observations. " +
 			"distinct_nontrivial counts distinct (scenario, environment, observed result) classes.",
 		Assumptions: []string{
 			"back-to-back reads from one stream go through ONE shared reader implementing lattigo's buffer.Reader (bufio.Reader or buffer.Buffer); for a plain io.Reader the library documents a read-ahead bufio wrapper, so only the returned count is checked there",
